@@ -826,6 +826,63 @@ var c12Flows = []string{"send", "send-with-caller", "deposit", "deposit-with-cal
 	"receive-other-by-pauser-as-caller", "receive-mint-by-pauser-as-caller", "send-by-pauser", "receive-other-by-owner-as-caller", "receive-mint-by-owner-as-caller", "send-by-owner",
 	"receive-other-by-am-as-caller", "receive-mint-by-am-as-caller", "send-by-am", "receive-other-by-tc-as-caller", "receive-mint-by-tc-as-caller", "send-by-tc"}
 
+// attesterIdentifierStructure: identifiers of which one is a string prefix of another, continued by '/', by a character
+// that sorts below '/' ('-', '!', '.', ' ') or above it ('0', 'z'). Each is an entry of its own: a disable naming a
+// string that is not enabled is refused and removes nothing; a disable naming an enabled one removes exactly that one,
+// whatever order the entries were enabled in. (The engine's outcome oracle and state tap judge every step.)
+func attesterIdentifierStructure(rc *RunCtx, cell string) {
+	stems := []string{"1234", "0xab", AttesterPool[8].Spell(0)}
+	tails := []string{"/56", "/", "-1", "!", ".", " 1", "0", "z", "//", "/0x"}
+	for order := 0; order < 3; order++ {
+		e, err := StdEngine(rc, false, false, func(gs *ct.GenesisState, cfg *chain.Config) {
+			gs.SignatureThreshold = &ct.SignatureThreshold{Amount: 1}
+		})
+		if err != nil {
+			rc.Cov.Inconclusive("identifier structure: " + err.Error())
+			return
+		}
+		e.LightQueries = false
+		am := e.M.AM
+		step := func(m sdk.Msg, kind string) {
+			r := e.Exec(Tx{Msgs: msgs1(m), Note: "attester identifier structure: " + kind})
+			rc.Cov.Cell(cell, kind+"/"+okWord(r.OK))
+		}
+		for _, stem := range stems {
+			var ids []string
+			for _, t := range tails {
+				ids = append(ids, stem+t)
+			}
+			switch order {
+			case 1: // the stem first
+				ids = append([]string{stem}, ids...)
+			case 2: // the stem last, continuations in reverse
+				for l, r := 0, len(ids)-1; l < r; l, r = l+1, r-1 {
+					ids[l], ids[r] = ids[r], ids[l]
+				}
+				ids = append(ids, stem)
+			}
+			for _, id := range ids {
+				step(&ct.MsgEnableAttester{From: am, Attester: id}, "enable")
+			}
+			if order == 0 {
+				step(&ct.MsgDisableAttester{From: am, Attester: stem}, "disable-a-prefix-that-is-not-enabled")
+			}
+			step(&ct.MsgDisableAttester{From: am, Attester: stem + "/5"}, "disable-an-unknown-continuation")
+			step(&ct.MsgDisableAttester{From: am, Attester: stem + "-"}, "disable-an-unknown-continuation")
+			e.FullQueryCheck(nil, []uint64{1, 4, 100})
+			for i, id := range ids {
+				if i%2 == order%2 {
+					step(&ct.MsgDisableAttester{From: am, Attester: id}, "disable-an-enabled-entry")
+				}
+			}
+			if order != 0 {
+				step(&ct.MsgDisableAttester{From: am, Attester: stem}, "disable-the-stem-again")
+			}
+			e.FullQueryCheck(nil, []uint64{1, 4, 100})
+		}
+	}
+}
+
 // adminAvailable: an administrative request that the model expects to succeed must succeed whatever the flags are.
 func adminAvailable(e *Engine, tx *Tx, r *Report, sr, bm bool) {
 	e.Rc.Cov.Assert("C12.admin-available-while-paused")
@@ -1316,6 +1373,9 @@ func runC13(rc *RunCtx) {
 			}
 			e.FullQueryCheck(nil, []uint64{1, 3, 100})
 		}
+	}
+	if rc.Shard == 0 {
+		attesterIdentifierStructure(rc, "C13_identifier_structure")
 	}
 	// a large attester set (more entries than any page or batch size a list reader might use): the count that the
 	// threshold is compared with must stay exact
